@@ -54,8 +54,11 @@ Kept(r) == {d \in Dates(r) : ArrUtc(r, d) >= DepUtc(r, d)}
 Given(r) == (Pairs[r.pair].gc * r.pct) \div 100
 AbsDiff(r) == IF Given(r) > Pairs[r.pair].gc THEN Given(r) - Pairs[r.pair].gc ELSE Pairs[r.pair].gc - Given(r)
 Plausible(r) == r.pct = 0 \/ ~(AbsDiff(r) > 50 /\ 100 * AbsDiff(r) > 10 * Pairs[r.pair].gc)
-SkipReasons == {"none", "service_V", "service_U", "stops", "non_operating", "equipment_BUS", "unknown_airport"}
-Imported(r) == r.skip = "none" /\ Plausible(r)
+\* row variants: the documented reasons for skipping a row, and look-alikes that are NOT reasons (a blank service
+\* code; a surface code in the SPECIFIC equipment column while the general one is an aircraft)
+SkipReasons == {"none", "service_V", "service_U", "stops", "non_operating", "equipment_BUS", "unknown_airport", "service_blank", "specific_code_BUS"}
+Harmless == {"none", "service_blank", "specific_code_BUS"}
+Imported(r) == r.skip \in Harmless /\ Plausible(r)
 
 AllDays == 1..7
 DaySets == SUBSET AllDays
@@ -87,6 +90,6 @@ InstancesInRange == \A d \in Kept(row) : d >= From(row) /\ d <= To(row) /\ Weekd
 OpenEndsAreTheDataYear == (row.from = Open => From(row) = 0) /\ (row.to = Open => To(row) = YearDays - 1)
 CountIsKept == Cardinality(Kept(row)) <= Cardinality(Dates(row))
 \* a plausible row with a documented-valid service is never dropped
-NeverDropPlausible == (row.skip = "none" /\ row.pct \in {0, 100, 105}) => Imported(row)
+NeverDropPlausible == (row.skip \in Harmless /\ row.pct \in {0, 100, 105}) => Imported(row)
 WeekdayOfJan1 == Weekday(0) = 2
 =============================================================================
